@@ -391,4 +391,4 @@ def _run(case, ctx):
 def stages(tier):
     # these inputs are tiny (<= 7 offers): a case normally takes ~1 ms, so 3 s is already a 1000-fold margin
     return [{"name": "cases", "kind": "hyp", "strategy": strategy, "run": run, "watchdog_s": 3,
-             "examples": {"quick": 12000, "thorough": 800000}, "shards": 16}]
+             "examples": {"quick": 24000, "thorough": 800000}, "shards": 16}]
